@@ -84,6 +84,84 @@ func propC09(a *Analysis, r *Registry) {
 			}
 		})
 	}
+	// Sort leaves the data as it is only when it is already in order: the paths on which
+	// neither sort.Float64s nor sort.Sort is reached are those with s.Sorted set or the values
+	// found ascending — by sort.Float64sAreSorted or by a helper of the module that is itself
+	// decided to be that test (every adjacent pair compared, false exactly at a descent)
+	if fn := b.Fn("C-decision", "stats.(*Sample).Sort"); fn != nil {
+		name := "stats.(*Sample).Sort"
+		b.guard("C-decision", name+"/skips-only-sorted", func() {
+			fc := X.FCFor(fn)
+			env := X.EnvFor(fn, "s")
+			reach := S.False()
+			n := 0
+			for _, cn := range []string{"sort.Float64s", "sort.Sort"} {
+				for _, c := range fc.CallsTo(cn) {
+					reach = S.Or(reach, fc.ReachCond(c.Block()))
+					n++
+				}
+			}
+			if n == 0 {
+				r.Undecided("C-decision", name+"/skips-only-sorted", b.pos(fn), "no call to sort.Sort / sort.Float64s in Sort itself")
+				return
+			}
+			skip := S.Not(reach)
+			lib := S.MakeFn("sort.Float64sAreSorted", env.MustParse("s.Xs"))
+			sub := map[AtomID]*RF{}
+			for _, at := range skip.Atoms(true) {
+				if at.Kind != "fn" || len(at.Args) != 1 || !at.Args[0].Equal(env.MustParse("s.Xs")) {
+					continue
+				}
+				h := a.W.Fn(at.Name)
+				if h == nil || len(h.Params) != 1 {
+					continue
+				}
+				hfc := X.FCFor(h)
+				loops := hfc.Ctx.Loops()
+				if len(loops) != 1 {
+					r.Fail("C-decision", name+"/skips-only-sorted/"+at.Name, b.pos(h), "the order test is not a single scan")
+					continue
+				}
+				xs := X.ParamRF(h, 0)
+				ln := S.MakeFn("len", xs)
+				el := func(i *RF) *RF { return S.MakeFn("idx", xs, i) }
+				variant := func(sp FirstHit) func() {
+					return func() {
+						sp.Base, sp.Miss = xs, S.True()
+						sp.Val = func(*RF) *RF { return S.False() }
+						b.FirstHitScan("C-decision", name+"/skips-only-sorted/"+at.Name, b.pos(h), hfc, loops[0].Header, sp)
+					}
+				}
+				down := func(e *RF) *RF { return S.Cmp("<", el(e), el(e.Sub(S.Int(1)))) }
+				up := func(e *RF) *RF { return S.Cmp("<", el(e.Add(S.Int(1))), el(e)) }
+				mark := len(r.Obs)
+				b.AnyOf(
+					variant(FirstHit{First: S.Int(1), N: ln, Pair: -1, Hit: down}),
+					variant(FirstHit{First: S.Int(0), N: ln.Sub(S.Int(1)), Pair: 1, Hit: up}),
+					variant(FirstHit{First: ln.Sub(S.Int(1)), Down: true, Low: S.Int(1), Pair: -1, Hit: down}),
+					variant(FirstHit{First: ln.Sub(S.Int(2)), Down: true, Low: S.Int(0), Pair: 1, Hit: up}),
+				)
+				good := len(r.Obs) > mark
+				for _, o := range r.Obs[mark:] {
+					if o.st != Discharged {
+						good = false
+					}
+				}
+				if good {
+					sub[at.ID] = lib
+				}
+			}
+			if len(sub) > 0 {
+				skip = skip.Subst(sub)
+			}
+			want := S.Or(env.MustParse("s.Sorted"), lib)
+			if skip.Equal(want) || S.BoolEquiv(skip, want) || X.EquivByCases(skip, want, 0) {
+				r.OK("C-decision", name+"/skips-only-sorted", b.pos(fn), "no sorting exactly when s.Sorted || the values are found ascending")
+			} else {
+				r.Fail("C-decision", name+"/skips-only-sorted", b.pos(fn), "Sort leaves the data unsorted when "+clip(skip.String(), 300)+", not exactly when s.Sorted || sort.Float64sAreSorted(s.Xs)")
+			}
+		})
+	}
 	// accumulations: rv = returned loop-carried value (possibly wrapped)
 	type acc struct {
 		fn, construct string
